@@ -17,6 +17,7 @@ EXPLANATION = (
 RULE = "one obligation per Ok-return of acquire, per window state (consume, capacity, refill writes), per wrapped-call site"
 TRUSTED = ["std::sync::Mutex (mutual exclusion of window updates)", "tokio::time::sleep", "rustc MIR construction"]
 ASSUMPTIONS = ["limit_for_period >= 1 (the property's quantifier) for the one reasoned exception in the sliding log"]
+CONFIG_CRATES = ["tower_resilience_ratelimiter"]
 TECHNIQUE = "static analysis of built MIR: protocol rule (edge dominance over result variants and zero-duration idioms), guarded-write / who-writes rules"
 
 
